@@ -29,22 +29,17 @@ impl Case {
 }
 
 fn class_of(case: &Case) -> String {
-    // which special characters are involved (for the signature)
-    let mut v: Vec<&str> = Vec::new();
+    // the first special character involved, in a fixed priority order (for the signature)
     let all: String = case.map.iter().map(|(k, v)| format!("{}{}", k, v)).collect();
-    for (c, n) in [("%", "percent"), ("+", "plus"), (" ", "space"), ("&", "ampersand"), ("=", "equals"), ("?", "question-mark"), ("#", "hash"), ("/", "slash"), (";", "semicolon")] {
+    for (c, n) in [("?", "question-mark"), ("#", "hash"), ("%", "percent"), ("+", "plus"), ("&", "ampersand"), ("=", "equals"), (" ", "space"), ("/", "slash"), (";", "semicolon")] {
         if all.contains(c) {
-            v.push(n);
+            return n.to_string();
         }
     }
     if !all.is_ascii() {
-        v.push("non-ascii");
+        return "non-ascii".into();
     }
-    if v.is_empty() {
-        "plain".into()
-    } else {
-        v.join("+")
-    }
+    "plain".into()
 }
 
 fn echo_lines(body: &[u8]) -> Vec<String> {
